@@ -342,7 +342,9 @@ func (g *gen) size() int {
 	return n
 }
 
-func (g *gen) level() int { return []int{-1, 0, 1, 6, 9}[g.rng.Intn(5)] }
+// level: mostly the cheap levels (resetting a level >= 2 compressor clears about 1 MiB of hash
+// tables per frame); the decoder under test does not care which level produced the stream.
+func (g *gen) level() int { return []int{1, 1, 1, 0, 0, 1, 1, -1, 6, 9}[g.rng.Intn(10)] }
 
 func (g *gen) validStream(maxFrames int) ([]byte, [][2]int) {
 	var s []byte
